@@ -224,6 +224,62 @@ def work_attrs(names):
     return vio, dict(oc)
 
 
+# ---------------------------------------------------------------- (3) shortcuts from non-initial states
+
+PREFIX_DEPTH = {'quick': 2, 'thorough': 3}
+
+
+def work_prefix(arg):
+    """twins brought into the same state by the EXPLICIT api first (add_child with and without forward=, so that several
+    same-named children exist and their insertion order may differ from document order), then one shortcut step on one
+    twin and its documented explicit equivalent on the other; afterwards every xml_* read must address the same child
+    (by insertion position) as find_child does on the twin."""
+    T, tier = arg
+    vio = []
+    oc = collections.Counter()
+    fa = explore.forward_alphabet(T)
+    mult = explore.leaf_multiplicity(T)
+    sigma = fa if fa else explore.reduced_alphabet(T)[:3]
+    pops = [('A', a) for a in sigma] + [('F', a, k) for a in sigma if mult[a] > 1 for k in range(min(mult[a], 3))]
+    for d in range(1, PREFIX_DEPTH[tier] + 1):
+        for prefix in itertools.product(pops, repeat=d):
+            st1 = impl.build(T, prefix)
+            if not all(o.ok for o in st1.outcomes):
+                continue
+            oc['prefix_states'] += 1
+            present = []
+            for n in st1.names():
+                if n not in present:
+                    present.append(n)
+            for a in present:
+                for m in MODES:
+                    s1, s2 = impl.build(T, prefix), impl.build(T, prefix)
+                    e1, e2 = s1.el, s2.el
+                    o1, o2 = shortcut(e1, a, m), explicit(e2, a, m)
+                    oc['prefix_steps'] += 1
+                    r1, r2 = impl.serialise(e1), impl.serialise(e2)
+                    key = [st1.knames(), ['Xs', a, m]]
+                    if outcome_class(o1) != outcome_class(o2) or r1[:2] != r2[:2] or (r1[0] == 'exc' and r1[2] != r2[2]):
+                        vio.append({'scope': T, 'kind': 'surfaces-differ', 'key': key + ['after-explicit-prefix'],
+                                    'trace': [list(x) for x in prefix] + [['Xs', a, m]],
+                                    'observed': [outcome_class(o1), outcome_class(o2), list(r1[:3]), list(r2[:3])]})
+                        continue
+                    k1 = list(e1.get_children(ordered=False))
+                    k2 = list(e2.get_children(ordered=False))
+                    for b in present:
+                        rd = call(getattr, e1, 'xml_' + b.replace('-', '_'))
+                        fd = call(e2.find_child, impl.class_for(b).__name__)
+                        p1 = next((i for i, c in enumerate(k1) if c is rd.value), None) if rd.ok else 'exc:' + rd.exc
+                        p2 = next((i for i, c in enumerate(k2) if c is fd.value), None) if fd.ok else 'exc:' + fd.exc
+                        if p1 != p2:
+                            vio.append({'scope': T, 'kind': 'read-back-wrong', 'key': key + ['read', b],
+                                        'trace': [list(x) for x in prefix] + [['Xs', a, m]],
+                                        'observed': {'xml_read_position': p1, 'find_child_position': p2,
+                                                     'children': [c.name for c in k1]}})
+                            break
+    return vio, dict(oc)
+
+
 def run(tier):
     run_ = core.Run('C15', tier)
     guards = []
@@ -246,17 +302,25 @@ def run(tier):
         run_.add_violations(vio)
         for k, v in o.items():
             oc[k] += v
-    if oc['sequences'] == 0 or oc['attr_sequences'] == 0:
+    for vio, o in core.pmap(work_prefix, [(T, tier) for T in impl.TYPES]):
+        run_.add_violations(vio)
+        for k, v in o.items():
+            oc[k] += v
+    if oc['sequences'] == 0 or oc['attr_sequences'] == 0 or oc['prefix_steps'] == 0:
         guards.append('nothing explored')
     run_.assumptions += ['explicit twin implements the documented mapping of _convert_attribute_to_child',
                          'namespaced attributes are left to C04']
-    cov = {'states': n + oc['attr_sequences'], 'transitions': n + oc['attr_sequences'],
-           'traces_validated_against_impl': n + oc['attr_sequences'], 'counters': dict(oc), 'per_type': per_type,
+    cov = {'states': n + oc['attr_sequences'] + oc['prefix_states'], 'transitions': n + oc['attr_sequences'] + oc['prefix_steps'],
+           'traces_validated_against_impl': n + oc['attr_sequences'] + oc['prefix_steps'], 'counters': dict(oc), 'per_type': per_type,
            'samples': [{'type': 'pitch', 'sequence': [['Xs', 'step', 'raw'], ['Xs', 'step', 'inst']]},
-                       {'class': 'note', 'attribute_sequence': [['print-object', 'yes'], ['print-object', None]]}],
+                       {'class': 'note', 'attribute_sequence': [['print-object', 'yes'], ['print-object', None]]},
+                       {'type': 'credit', 'explicit_prefix': [['A', 'credit-words'], ['F', 'credit-words', 1]],
+                        'then': ['Xs', 'credit-words', 'inst']}],
            'exhaustive': True,
            'rule': 'all shortcut-operation sequences up to per-type depth (budget %d) x lock-step explicit twin; all '
-                   'attribute assignment sequences of length <= 2 over <= 4 attributes per class' % BUDGET[tier]}
+                   'attribute assignment sequences of length <= 2 over <= 4 attributes per class; every state reached by '
+                   '<= %d successful explicit additions (forward placements included) x every shortcut on a held name'
+                   % (BUDGET[tier], PREFIX_DEPTH[tier])}
     return run_.finish(cov, guard_errors=guards)
 
 
